@@ -46,6 +46,9 @@ def run(tier, rep):
     fe.mc(rep, "items", 2 if quick else 3, maxpay=1, damage=True, optset="OptAll", bundle=bundle, liveness=False)
     rnd = rng("c17")
     pool = stream_corpus.payload_pool(bundle, "c17", 80)
+    from .. import msm_corpus
+
+    msmpool = [pl for _, shape, pl, enc in msm_corpus.build_all(bundle, "c17", True) if shape in ("manysat", "dense", "random") and enc.ints.get("NCell", 0) > 0 and len(pl) < 500]
     tr = fe.Traces(rep)
     corp = de.Corpus(rep, bundle)
     combos = [(v, p, q) for v in (0, 1) for p in (True, False) for q in (0, 1, 2)]
@@ -54,7 +57,7 @@ def run(tier, rep):
         items = []
         for _ in range(rnd.randint(4, 10)):
             r = rnd.random()
-            pl = rnd.choice(pool)
+            pl = rnd.choice(msmpool) if rnd.random() < 0.35 else rnd.choice(pool)
             if r < 0.5:
                 items.append(("frame", frame_of(pl), pl))
             elif r < 0.75:
@@ -65,10 +68,10 @@ def run(tier, rep):
                 items.append(("ubx", gen_streams.ubx(rnd), None))
         data = b"".join(i[1] for i in items)
         g = {}
-        for v, p, q in combos:
-            lab = rnd.choice([1, 2])
-            tid, ev, res = tr.add(data, kind=rnd.choice(["bytesio", "scripted"]), validate=v, parsed=p, quit=q, labelmsm=lab, rnd=rnd, items=items, labelmsm_=lab)
-            g[(v, p, q)] = tid
+        for ci, (v, p, q) in enumerate(combos):
+            for lab in ((1, 2) if p else (1,)):          # the label option is an option too: both values under every combination
+                tid, ev, res = tr.add(data, kind=["bytesio", "scripted"][ci % 2], validate=v, parsed=p, quit=q, labelmsm=lab, rnd=rnd, items=items, labelmsm_=lab)
+                g[(v, p, q, lab)] = tid
         groups.append((data, items, g))
         # static parser with validate = 0 on wrong-CRC frames
         for kind, fr, pl in items:
@@ -81,11 +84,11 @@ def run(tier, rep):
         if v[0] != "accept":
             rep.reject(v[1], {"engine": "framer", "validate": m["validate"], "parsed": m["parsed"], "quit": m["quit"], "detail": str(v[3])[:60]}, tr.replay_of(tid, v))
     for data, items, g in groups:
-        base = g[(1, True, 1)]
+        base = g[(1, True, 1, 1)]
         io0 = [(e["op"], e["n"], len(e["data"])) for e in tr.traces[base - 1]["ev"] if e["op"] != "call"]
         valid = [i[1] for i in items if i[0] == "frame"]
         anyf = [i[1] for i in items if i[0] in ("frame", "badcrc")]
-        for (v, p, q), tid in g.items():
+        for (v, p, q, _lab), tid in g.items():
             m = tr.meta[tid]
             facts = {"engine": "framer", "validate": v, "parsed": p, "quit": q}
             io = [(e["op"], e["n"], len(e["data"])) for e in tr.traces[tid - 1]["ev"] if e["op"] != "call"]
@@ -99,8 +102,12 @@ def run(tier, rep):
             if not p and any(r[1] is not None for r in tr.results[tid]):
                 rep.reject("ParsedOffNoObject", facts, tr.replay_of(tid, verdicts[tid]))
             if p:
-                for raw, msg in tr.results[tid][: (3 if quick else 12)]:
-                    if msg is not None:
+                njudged = 0
+                for raw, msg in tr.results[tid]:
+                    # every MSM object (labels depend on the option) and a few others
+                    ismsm = msg is not None and str(msg.identity)[:3] in ("107", "108", "109", "110", "111", "112", "113")
+                    if msg is not None and (ismsm or njudged < (2 if quick else 8)):
+                        njudged += 1
                         corp.add_message(raw[3:-3], msg, m["labelmsm_"], lbl=True, ident="slice", kind=f"v{v}")
     dv = corp.judge()
     for r in corp.recs:
@@ -110,4 +117,4 @@ def run(tier, rep):
         elif corp.meta[r["rid"]]["kind"] == "static" and x[1] not in ("Message", "Stub"):
             rep.reject("ValidateOffStillRejects", {"engine": "decode"}, de.replay_of(r, corp.meta[r["rid"]], x))
     rep.notes["option_groups"] = len(groups)
-    rep.sample({"stream_items": [i[0] for i in groups[0][1]], "combinations": len(combos), "delivered_per_combo": {str(k): len(tr.results[t]) for k, t in list(groups[0][2].items())[:6]}})
+    rep.sample({"stream_items": [i[0] for i in groups[0][1]], "combinations": len(groups[0][2]), "delivered_per_combo": {str(k): len(tr.results[t]) for k, t in list(groups[0][2].items())[:6]}})
